@@ -173,3 +173,7 @@ def gen(ctx):
 
 
 UNITS = [Unit("root_attach_vs_reference", gen, check, shards=(4, 16))]
+
+
+from vlib import clidiff
+UNITS.append(clidiff.unit("C12"))
